@@ -36,6 +36,20 @@ func (r *recorder) handler(ctx context.Context, request []byte, next core.NextIO
 	return expectedResponse(request), nil
 }
 
+// waitFor waits (up to 5 s) until n requests have been recorded: on a loaded machine the
+// service may be late; expectations of the form "must have been delivered" use it.
+func (r *recorder) waitFor(n int) {
+	for i := 0; i < 500; i++ {
+		r.mu.Lock()
+		k := len(r.seen)
+		r.mu.Unlock()
+		if k >= n {
+			return
+		}
+		time.Sleep(10 * time.Millisecond)
+	}
+}
+
 func (r *recorder) take() [][]byte {
 	r.mu.Lock()
 	defer r.mu.Unlock()
@@ -525,6 +539,7 @@ func udpBitFlips(c *h.Case) {
 	}
 	// the server must still serve
 	conn.Write(peer.UDPFrame(6, body, false))
+	rec.waitFor(1)
 	settle()
 	if seen := rec.take(); len(seen) != 1 || !bytes.Equal(seen[0], body) {
 		c.Violation("server-gone-after-corrupt-datagrams:udp", fmt.Sprintf("an intact datagram after the corrupted ones was recorded %d times", len(seen)), nil)
@@ -546,29 +561,66 @@ func udpDeclared(c *h.Case) {
 	defer conn.Close()
 	sizes := []int{0, 1, 5, 100, 65499}
 	marker := bytes.Repeat([]byte("MARKER-OF-ANOTHER-CLIENT"), 2000)[:40000]
+	var pairs []udpPair
+	markers := 0
+	// every datagram carries its own fill byte, so that a record is judged by what it is,
+	// whenever the (possibly loaded) service gets round to it
 	for _, declared := range sizes {
 		for _, actual := range sizes {
 			// another client's datagram first: a reused receive buffer shows as marker bytes
 			other.Write(peer.UDPFrame(1, marker, false))
-			settle()
-			rec.take()
-			body := bytes.Repeat([]byte{0xAB}, actual)
+			markers++
+			rec.waitFor(markers + countTruthful(pairs))
+			fillByte := byte(0x10 + len(pairs))
+			pairs = append(pairs, udpPair{declared, actual})
+			body := bytes.Repeat([]byte{fillByte}, actual)
 			conn.Write(peer.UDPFrameDeclared(9, uint16(declared), body, false))
 			settle()
 			r.Eval(1)
-			rep := map[string]interface{}{"declared": declared, "actual": actual}
-			for _, s := range rec.take() {
-				switch {
-				case declared == actual && bytes.Equal(s, body):
-				case bytes.Contains(s, []byte("MARKER")):
-					c.Violation("frame-completed-with-another-clients-bytes:udp", fmt.Sprintf("declared %d, datagram carried %d: the service was handed %d bytes containing the previous client's data", declared, actual, len(s)), rep)
-				default:
-					c.Violation("inconsistent-frame-delivered:udp", fmt.Sprintf("declared %d, datagram carried %d: the service was handed %d bytes", declared, actual, len(s)), rep)
-				}
-			}
 			r.Distinct(fmt.Sprintf("udp|declared|%d|%d", declared, actual))
 		}
 	}
+	time.Sleep(300 * time.Millisecond)
+	empties := 0
+	for _, s := range rec.take() {
+		if bytes.Equal(s, marker) {
+			continue
+		}
+		if len(s) == 0 {
+			empties++
+			continue
+		}
+		idx := int(s[0]) - 0x10
+		if idx < 0 || idx >= len(pairs) {
+			c.Violation("inconsistent-frame-delivered:udp", fmt.Sprintf("the service was handed %d bytes that no datagram carried: %q", len(s), clip(s, 40)), nil)
+			continue
+		}
+		p := pairs[idx]
+		rep := map[string]interface{}{"declared": p.declared, "actual": p.actual}
+		switch {
+		case p.declared == p.actual && bytes.Equal(s, bytes.Repeat([]byte{s[0]}, p.actual)):
+		case bytes.Contains(s, []byte("MARKER")):
+			c.Violation("frame-completed-with-another-clients-bytes:udp", fmt.Sprintf("declared %d, datagram carried %d: the service was handed %d bytes containing the previous client's data", p.declared, p.actual, len(s)), rep)
+		default:
+			c.Violation("inconsistent-frame-delivered:udp", fmt.Sprintf("declared %d, datagram carried %d: the service was handed %d bytes", p.declared, p.actual, len(s)), rep)
+		}
+	}
+	// exactly one datagram was empty and said so
+	if empties > 1 {
+		c.Violation("inconsistent-frame-delivered:udp", fmt.Sprintf("%d empty requests were delivered, one datagram declared and carried nothing (others declared 0 and carried more)", empties), nil)
+	}
+}
+
+type udpPair struct{ declared, actual int }
+
+func countTruthful(ps []udpPair) int {
+	n := 0
+	for _, p := range ps {
+		if p.declared == p.actual {
+			n++
+		}
+	}
+	return n
 }
 
 func udpRawServer(c *h.Case) {
@@ -787,6 +839,9 @@ func wsRawClient(c *h.Case, kind string) {
 			return
 		}
 		conn.WriteMessage(v.mt, v.data)
+		if v.want != nil {
+			rec.waitFor(1)
+		}
 		conn.SetReadDeadline(time.Now().Add(300 * time.Millisecond))
 		conn.ReadMessage()
 		conn.Close()
